@@ -434,6 +434,16 @@ func (s *Sim) adopt() *Task {
 	s.tasks = append(s.tasks, t)
 	s.byGoid[g] = t
 	s.hb.fresh(t)
+	// Somebody created this goroutine (time.AfterFunc, context.AfterFunc, a library), and
+	// whatever that somebody did before creating it happens before what it does. Who it was
+	// is unknown here, so the adopted task starts ordered after everything every task has done
+	// so far: more order than there is, which can hide a race and cannot invent one.
+	for _, o := range s.tasks {
+		if o != t {
+			t.vc.join(o.vc)
+		}
+	}
+	t.vc.join(s.hb.extern)
 	s.Adopted++
 	return t
 }
